@@ -5,6 +5,12 @@ import vbuild
 from concurrent.futures import ThreadPoolExecutor
 
 
+# every operation history up to the given length as its own node (no merging on the canonical state): catches behaviour that depends on
+# simulator state the canonical key (amplitudes + measured flags) cannot see
+HISTORY_RUNS_QUICK = [["bfs", "full", 2, 6, 9000000, 6], ["bfs", "full", 3, 6, 9000000, 6]]
+HISTORY_RUNS_THOROUGH = [["bfs", "full", 2, 7, 9000000, 7], ["bfs", "full", 3, 6, 9000000, 6]]
+
+
 def sim_mc(args, variant="asan"):
     exe = vbuild.ensure(variant, ["sim_mc"])["sim_mc"]
     p = subprocess.run([exe] + [str(a) for a in args], stdout=subprocess.PIPE, stderr=subprocess.PIPE)
